@@ -269,6 +269,13 @@ class Predicates(PredicatesBase, qset[Predicate]):
         # mismatch.
         get = self._lookup.get
         conflicts: dict[Predicate, Predicate]|None = None
+        if len(arriving) > 1:
+            # Predicates arriving together must not conflict with each other.
+            seen = {}
+            for pred in arriving:
+                for ref in pred.refs:
+                    if seen.setdefault(ref, pred) != pred:
+                        raise Emsg.ValueConflictFor(pred, pred.spec, seen[ref].spec)
         for pred in arriving:
             for prior in filter(None, map(get, pred.refs)):
                 if prior != pred:
